@@ -185,6 +185,11 @@ class Conn:
             return REFUSE, 'state:' + st.state
         if pos == 'response':
             if kind == 'final':
+                if st.state == RES_LOCAL and self.peer_max_streams is not None and \
+                        self.open_count(True) + 1 > self.peer_max_streams:
+                    # the promised stream becomes half-closed (remote) and starts to count; with
+                    # END_STREAM it is closed at once and whether it ever counted is a dont-care
+                    return (DONTCARE if end_stream else REFUSE), 'too-many-streams'
                 return PERMIT, 'response'
             if kind == 'info':
                 if end_stream:
@@ -354,6 +359,11 @@ class Conn:
             return out, None
         if st.state == RES_REMOTE:
             if kind == 'final':
+                if self.open_count(False) + 1 > self.local_max_streams:
+                    out = {C(P), S(P), S(wire.REFUSED_STREAM)}
+                    if end_stream:
+                        return out | {ACCEPT}, 'response'
+                    return out, None
                 return {ACCEPT}, 'response'
             if kind == 'info':
                 # an informational response on a promised stream: message grammar allows 1xx before the final
